@@ -700,7 +700,7 @@ pub fn run(ctx: &Ctx) -> i32 {
     rep.assume("CSR pseudo-instructions are judged against the RARS operand order (register first), which is the assembler the tool targets");
     let thorough = ctx.tier == crate::report::Tier::Thorough;
     let states = if thorough { 64 } else { 16 };
-    let random_pairs: u64 = if thorough { 10_000_000 } else { 100_000 };
+    let random_pairs: u64 = if thorough { 20_000_000 } else { 2_000_000 };
     let jobs = ctx.jobs;
     // ---- tables 1 and 2 (sharded over the case list)
     let mut seed_rng = Rng::derive(ctx.seed, 8, 0);
